@@ -1404,6 +1404,11 @@ class Explorer:
                     if sa[1].strip().lower() in ('-inf', '-infinity'):
                         return -rf_inf()
             return args[0]
+        if dotted in ('numpy.any', 'numpy.all', 'builtins.any', 'builtins.all') and n == 1 and not kwargs and \
+                key_of(args[0]) in (TRUE, FALSE):
+            # the comparison inside was decided on this path (element-wise comparisons are abstracted as one
+            # decision): its reduction is the same decision
+            return args[0]
         if dotted == 'builtins.range':
             return atomv(('range',) + tuple(key_of(a) for a in args))
         if dotted == 'builtins.map' and n == 2 and isinstance(args[0], LambdaVal) and not kwargs and \
